@@ -7,6 +7,13 @@
 //!        `ReadSource` whose node name differs from its path); restore into dest with sentinels around it.
 //!        observation: `refused` (restore returns an error and nothing is written) or `restored`.
 //!   c14 tree <seed>                 random tree × random mutation of the destination × options; oracle only.
+//!   c14 walk <delete> <dry> <dst> <nodes>   the merge-walk of `collect_and_prepare`: dst = `K:path,…` (d dir, f file with
+//!        other content, F file with the snapshot's content, l dangling symlink), nodes = `K:path,…` (d dir, f file, s symlink),
+//!        both complete (parents listed).  Real `prepare_restore` (verify on) only; observation: `RestorePlan.stats` and the
+//!        destination listing afterwards (removals, created directories) or `err:<kind>`.
+//!   c14 plan <backups> <which> <dsts>   files as strings of chunk letters, backups `;`-separated; snapshot `which` is restored
+//!        over existing files `dsts` (`~` absent).  Observation: `RestorePlan::to_packs()` as the sorted backup numbers whose
+//!        data pack it names.  Oracles: data packs read by the real restore == to_packs(), restored content == snapshot.
 //! Oracles: `oracle-fail:` when a sentinel outside the destination is touched / a file appears outside, when a snapshot
 //! path does not hold the snapshot's content after restore (verify on or size/mtime differing), when extra entries are
 //! removed without `delete` or survive with it.
@@ -238,6 +245,11 @@ fn tree_case(seed: u64) -> String {
         };
         entries.push(SrcEntry { path, kind: SrcKind::File(content), mode: 0o644, mtime_s: SNAP_MTIME, ctime_s: SNAP_MTIME, inode: 0, links: 1 });
     }
+    // empty directories (top level and nested)
+    for i in 0..rng.below(3) {
+        let name = format!("emp{i}").into_bytes();
+        entries.push(if rng.chance(1, 2) { SrcEntry::dir(&[&name]) } else { SrcEntry::dir(&[b"d", &name]) });
+    }
     let src = MemSource::new(entries);
     let cfg = ConfigOptions::default().set_chunker(Chunker::FixedSize).set_chunk_size(bytesize::ByteSize(4096));
     let Ok((h, _)) = RepoHandle::init(MemBackend::new(), None, &cfg) else { return "err:init".into() };
@@ -260,11 +272,19 @@ fn tree_case(seed: u64) -> String {
             p.push(String::from_utf8_lossy(c).to_string());
         }
         match &e.kind {
-            SrcKind::Dir => {
-                if rng.chance(2, 3) {
-                    _ = std::fs::create_dir_all(&p);
+            SrcKind::Dir => match rng.below(6) {
+                0..=3 => _ = std::fs::create_dir_all(&p),
+                4 if delete && p.parent().is_some_and(Path::is_dir) => {
+                    // type changed: a file (or dangling symlink) where the snapshot has a directory
+                    if rng.chance(1, 2) {
+                        _ = std::fs::write(&p, b"not a directory");
+                    } else {
+                        _ = std::os::unix::fs::symlink("nowhere", &p);
+                    }
+                    type_changed = true;
                 }
-            }
+                _ => {}
+            },
             SrcKind::File(c) => {
                 if let Some(par) = p.parent() {
                     if !par.exists() {
@@ -376,6 +396,232 @@ fn tree_case(seed: u64) -> String {
     "ok".into()
 }
 
+fn w_content(path: &str) -> Vec<u8> {
+    format!("S:{path}").into_bytes()
+}
+
+fn walk_case(delete: bool, dry: bool, dst: &str, nodes: &str) -> String {
+    let parse = |s: &str, kinds: &str| -> Option<Vec<(char, String)>> {
+        if s == "-" {
+            return Some(vec![]);
+        }
+        s.split(',')
+            .map(|t| {
+                let (k, p) = t.split_once(':')?;
+                let k = k.chars().next().filter(|c| k.len() == 1 && kinds.contains(*c))?;
+                (!p.is_empty() && p.split('/').all(|c| !c.is_empty() && c != "." && c != "..")).then(|| (k, p.to_string()))
+            })
+            .collect()
+    };
+    let (Some(mut ds), Some(ns)) = (parse(dst, "dfFl"), parse(nodes, "dfs")) else { return "bad-op".into() };
+    let tmp = tempfile::tempdir().expect("tempdir");
+    let dest = tmp.path().join("dest");
+    std::fs::create_dir_all(&dest).unwrap();
+    ds.sort_by(|a, b| Path::new(&a.1).cmp(Path::new(&b.1)));
+    for (k, p) in &ds {
+        let full = dest.join(p);
+        let r = match k {
+            'd' => std::fs::create_dir_all(&full),
+            'f' => std::fs::write(&full, b"x"),
+            'F' => std::fs::write(&full, w_content(p)),
+            _ => std::os::unix::fs::symlink("nowhere", &full),
+        };
+        if r.is_err() {
+            return "bad-op".into();
+        }
+    }
+    let entries: Vec<SrcEntry> = ns
+        .iter()
+        .map(|(k, p)| {
+            let comps: Vec<&[u8]> = p.split('/').map(str::as_bytes).collect();
+            match k {
+                'd' => SrcEntry::dir(&comps),
+                'f' => SrcEntry::file(&comps, &w_content(p)),
+                _ => {
+                    let mut e = SrcEntry::dir(&comps);
+                    e.kind = SrcKind::Symlink(b"elsewhere".to_vec());
+                    e.mode = 0o777;
+                    e
+                }
+            }
+        })
+        .collect();
+    let src = MemSource::new(entries);
+    if src.entries.len() != ns.len() {
+        return "bad-op".into(); // parents must be listed
+    }
+    let Ok((h, _)) = RepoHandle::init(MemBackend::new(), None, &ConfigOptions::default()) else { return "err:init".into() };
+    let Ok(snap) = crate::repo::backup(&h, &src, &BackupOptions::default(), SnapshotFile::default()) else { return "err:backup".into() };
+    let Ok(repo) = h.open().and_then(Repository::to_indexed) else { return "err:open".into() };
+    let Ok(node) = repo.node_from_snapshot_path(&format!("{}:src", snap.id.to_hex().as_str()), |_| true) else { return "err:node".into() };
+    let Ok(ls) = repo.ls(&node, &LsOptions::default()) else { return "err:ls".into() };
+    let Ok(d) = LocalDestination::new(dest.to_str().unwrap(), true, false) else { return "err:dest".into() };
+    let plan = match repo.prepare_restore(&opts_of(true, false, delete), ls, &d, dry) {
+        Ok(p) => p,
+        Err(e) => return crate::util::errkind(&e),
+    };
+    let st = plan.stats;
+    let mut lst: Vec<(PathBuf, String)> = snapshot_of_dir(&dest)
+        .keys()
+        .map(|k| {
+            if let Some(p) = k.strip_suffix('/') {
+                (PathBuf::from(p), format!("d:{p}"))
+            } else if let Some(p) = k.strip_suffix('@') {
+                (PathBuf::from(p), format!("l:{p}"))
+            } else {
+                (PathBuf::from(k), format!("f:{k}"))
+            }
+        })
+        .collect();
+    lst.sort();
+    let lst = if lst.is_empty() { "-".to_string() } else { lst.into_iter().map(|x| x.1).collect::<Vec<_>>().join(",") };
+    format!(
+        "ok {},{},{},{},{}/{},{},{} {lst}",
+        st.files.restore, st.files.unchanged, st.files.verified, st.files.modify, st.files.additional, st.dirs.restore, st.dirs.modify, st.dirs.additional
+    )
+}
+
+/// Destination entries of another type than the snapshot's, full restore.
+///   emptydir: snapshot = empty dir `e` + file `g`; destination has a FILE `e`.
+///   symlink:  snapshot = `d/f`; destination has `d` -> symlink to a directory OUTSIDE the destination.
+fn typed_case(kind: &str, delete: bool) -> String {
+    let tmp = tempfile::tempdir().expect("tempdir");
+    let outer = tmp.path().join("outer");
+    let dest = outer.join("dest");
+    let outside = outer.join("outside");
+    std::fs::create_dir_all(&dest).unwrap();
+    std::fs::create_dir_all(&outside).unwrap();
+    std::fs::write(outside.join("keep"), b"K").unwrap();
+    let src = match kind {
+        "emptydir" => {
+            std::fs::write(dest.join("e"), b"i am a file").unwrap();
+            MemSource::new(vec![SrcEntry::dir(&[b"e"]), SrcEntry::file(&[b"g"], b"gg")])
+        }
+        "symlink" => {
+            std::os::unix::fs::symlink(&outside, dest.join("d")).unwrap();
+            MemSource::new(vec![SrcEntry::file(&[b"d", b"f"], b"through")])
+        }
+        _ => return "bad-op".into(),
+    };
+    let Ok((h, _)) = RepoHandle::init(MemBackend::new(), None, &ConfigOptions::default()) else { return "err:init".into() };
+    let Ok(snap) = crate::repo::backup(&h, &src, &BackupOptions::default(), SnapshotFile::default()) else { return "err:backup".into() };
+    let Ok(repo) = h.open().and_then(Repository::to_indexed) else { return "err:open".into() };
+    let before = snapshot_of_dir(&outside);
+    let res = restore_with(&repo, &snap, &dest, &opts_of(true, false, delete));
+    if snapshot_of_dir(&outside) != before {
+        return "oracle-fail:wrote-through-symlink-outside-destination".into();
+    }
+    if let Err(e) = res {
+        return format!("err:{}", e.split(':').next_back().unwrap_or("?"));
+    }
+    if kind == "emptydir" {
+        let m = std::fs::symlink_metadata(dest.join("e"));
+        return match m {
+            Ok(m) if m.is_dir() => "ok dir".into(),
+            Ok(_) => "ok file".into(),
+            Err(_) => if delete { "oracle-fail:snapshot-dir-missing-after-restore".into() } else { "ok absent".into() },
+        };
+    }
+    if std::fs::read(dest.join("d").join("f")).ok().as_deref() != Some(b"through") {
+        return "oracle-fail:content-differs".into();
+    }
+    "ok".into()
+}
+
+const PLAN_CHUNK: usize = 16;
+
+fn letters_bytes(s: &str) -> Vec<u8> {
+    s.bytes().flat_map(|b| std::iter::repeat(b).take(PLAN_CHUNK)).collect()
+}
+
+fn plan_case(backups: &str, which: &str, dsts: &str) -> String {
+    use sha2::{Digest, Sha256};
+    let bks: Vec<Vec<&str>> = backups.split(';').map(|b| b.split(',').collect()).collect();
+    let Ok(w) = which.parse::<usize>() else { return "bad-op".into() };
+    let dsts: Vec<&str> = dsts.split(',').collect();
+    if w >= bks.len() || bks[w].len() != dsts.len() || bks.iter().flatten().any(|f| f.is_empty() || !f.bytes().all(|b| b.is_ascii_alphanumeric())) {
+        return "bad-op".into();
+    }
+    let cfg = ConfigOptions::default().set_chunker(Chunker::FixedSize).set_chunk_size(bytesize::ByteSize(PLAN_CHUNK as u64));
+    let be = MemBackend::new();
+    let Ok((h, _)) = RepoHandle::init(be.clone(), None, &cfg) else { return "err:init".into() };
+    let mut snaps = Vec::new();
+    for (k, files) in bks.iter().enumerate() {
+        let entries: Vec<SrcEntry> = files
+            .iter()
+            .enumerate()
+            .map(|(i, f)| {
+                let mut e = SrcEntry::file(&[format!("f{i}").as_bytes()], &letters_bytes(f));
+                e.mtime_s += k as i64;
+                e
+            })
+            .collect();
+        let Ok(snap) = crate::repo::backup(&h, &MemSource::new(entries), &BackupOptions::default(), SnapshotFile::default()) else {
+            return "err:backup".into();
+        };
+        snaps.push(snap);
+    }
+    let Ok(repo) = h.open().and_then(Repository::to_indexed) else { return "err:open".into() };
+    // pack -> number of the backup that stored (the first of) its blobs
+    let mut rank: BTreeMap<String, usize> = BTreeMap::new();
+    let mut seen = std::collections::BTreeSet::new();
+    for (k, files) in bks.iter().enumerate() {
+        for b in files.iter().flat_map(|f| f.bytes()) {
+            if seen.insert(b) {
+                let id = rustic_core::Id::new(Sha256::digest(vec![b; PLAN_CHUNK]).into());
+                let Ok(ie) = repo.get_index_entry(&rustic_core::DataId::from(id)) else { return "err:index".into() };
+                if *rank.entry(ie.pack.to_hex().to_string()).or_insert(k) != k {
+                    return "err:pack-spans-backups".into();
+                }
+            }
+        }
+    }
+    let tmp = tempfile::tempdir().expect("tempdir");
+    let dest = tmp.path().join("dest");
+    std::fs::create_dir_all(&dest).unwrap();
+    for (i, d) in dsts.iter().enumerate() {
+        if *d != "~" {
+            std::fs::write(dest.join(format!("f{i}")), letters_bytes(d)).unwrap();
+            set_mtime(&dest.join(format!("f{i}")), SNAP_MTIME + 1000);
+        }
+    }
+    let snap = &snaps[w];
+    let opts = opts_of(true, false, false);
+    let Ok(node) = repo.node_from_snapshot_path(&format!("{}:src", snap.id.to_hex().as_str()), |_| true) else { return "err:node".into() };
+    let Ok(ls) = repo.ls(&node, &LsOptions::default()) else { return "err:ls".into() };
+    let Ok(d) = LocalDestination::new(dest.to_str().unwrap(), true, false) else { return "err:dest".into() };
+    let plan = match repo.prepare_restore(&opts, ls, &d, false) {
+        Ok(p) => p,
+        Err(e) => return crate::util::errkind(&e),
+    };
+    let to_packs: std::collections::BTreeSet<String> = plan.to_packs().iter().map(|p| p.to_hex().to_string()).collect();
+    let Some(mut ranks) = to_packs.iter().map(|p| rank.get(p).copied()).collect::<Option<Vec<usize>>>() else {
+        return "oracle-fail:to_packs-names-a-non-data-pack".into();
+    };
+    ranks.sort_unstable();
+    be.clear_log();
+    let Ok(ls) = repo.ls(&node, &LsOptions::default()) else { return "err:ls".into() };
+    if let Err(e) = repo.restore(plan, &opts, ls, &d) {
+        return format!("err:restore:{}", crate::util::errkind(&e));
+    }
+    let read: std::collections::BTreeSet<String> = {
+        let g = be.inner.lock().unwrap();
+        g.reads.iter().filter(|(t, id, _)| *t == rustic_core::repofile::FileType::Pack && rank.contains_key(id.to_hex().as_str())).map(|(_, id, _)| id.to_hex().to_string()).collect()
+    };
+    if let Some(_p) = read.difference(&to_packs).next() {
+        return "oracle-fail:pack-read-not-in-to_packs".into();
+    }
+    if let Some(_p) = to_packs.difference(&read).next() {
+        return "oracle-fail:to_packs-pack-never-read".into();
+    }
+    for (i, f) in bks[w].iter().enumerate() {
+        if std::fs::read(dest.join(format!("f{i}"))).ok() != Some(letters_bytes(f)) {
+            return "oracle-fail:plan-content-differs".into();
+        }
+    }
+    if ranks.is_empty() { "ok -".into() } else { format!("ok {}", ranks.iter().map(ToString::to_string).collect::<Vec<_>>().join(",")) }
+}
+
 pub fn exec(t: &[&str]) -> String {
     let t: Vec<String> = t.iter().map(|s| (*s).to_string()).collect();
     guarded(move || match t.iter().map(String::as_str).collect::<Vec<_>>().as_slice() {
@@ -405,8 +651,111 @@ pub fn exec(t: &[&str]) -> String {
             hostile(kind, &n)
         }
         ["tree", seed] => seed.parse::<u64>().map_or("bad-op".into(), tree_case),
+        ["walk", del, dry, dst, nodes] => {
+            if ![*del, *dry].iter().all(|x| *x == "0" || *x == "1") {
+                return "bad-op".into();
+            }
+            walk_case(*del == "1", *dry == "1", dst, nodes)
+        }
+        ["plan", backups, which, dsts] => plan_case(backups, which, dsts),
+        ["typed", kind, del] if *del == "0" || *del == "1" => typed_case(kind, *del == "1"),
         _ => "bad-op".into(),
     })
+}
+
+/// `side`: 0 = the subtree exists on both sides, 1 = in the snapshot only, 2 = in the destination only
+fn gen_walk(rng: &mut Rng, prefix: &str, depth: usize, side: u8, ds: &mut Vec<String>, ns: &mut Vec<String>, stats: &mut Stats) {
+    const NAMES: [&str; 8] = ["a", "a.b", "a-b", "a0", "b", "B", "~", "a b"];
+    let n = if depth == 0 { 1 + rng.below(5) } else { rng.below(4) } as usize;
+    let mut names: Vec<&str> = Vec::new();
+    for _ in 0..n {
+        let c = *rng.pick(&NAMES[..7]);
+        if !names.contains(&c) {
+            names.push(c);
+        }
+    }
+    for name in names {
+        let p = if prefix.is_empty() { name.to_string() } else { format!("{prefix}/{name}") };
+        let deeper = depth < 2;
+        let sub = |rng: &mut Rng, side: u8, ds: &mut Vec<String>, ns: &mut Vec<String>, stats: &mut Stats| {
+            if deeper {
+                gen_walk(rng, &p, depth + 1, side, ds, ns, stats);
+            }
+        };
+        let scen = match side {
+            0 => rng.below(10),
+            1 => 10 + rng.below(3),
+            _ => 13 + rng.below(3),
+        };
+        match scen {
+            0 | 1 => {
+                stats.hit("walk.dir-dir");
+                ns.push(format!("d:{p}"));
+                ds.push(format!("d:{p}"));
+                sub(rng, 0, ds, ns, stats);
+            }
+            2 => {
+                stats.hit("walk.file-file-identical");
+                ns.push(format!("f:{p}"));
+                ds.push(format!("F:{p}"));
+            }
+            3 => {
+                stats.hit("walk.file-file-differs");
+                ns.push(format!("f:{p}"));
+                ds.push(format!("f:{p}"));
+            }
+            4 => {
+                stats.hit("walk.node-dir-dst-nondir");
+                ns.push(format!("d:{p}"));
+                ds.push(format!("{}:{p}", rng.pick(&["f", "l"])));
+                sub(rng, 1, ds, ns, stats);
+            }
+            5 => {
+                stats.hit("walk.node-file-dst-nonfile");
+                ns.push(format!("f:{p}"));
+                if rng.chance(1, 2) {
+                    ds.push(format!("d:{p}"));
+                    sub(rng, 2, ds, ns, stats);
+                } else {
+                    ds.push(format!("l:{p}"));
+                }
+            }
+            6 => {
+                stats.hit("walk.node-symlink-dst-any");
+                ns.push(format!("s:{p}"));
+                match rng.below(3) {
+                    0 => ds.push(format!("f:{p}")),
+                    1 => ds.push(format!("l:{p}")),
+                    _ => {
+                        ds.push(format!("d:{p}"));
+                        sub(rng, 2, ds, ns, stats);
+                    }
+                }
+            }
+            7 | 10 | 11 | 12 => {
+                stats.hit("walk.snapshot-only");
+                match rng.below(4) {
+                    0 | 1 => {
+                        ns.push(format!("d:{p}"));
+                        sub(rng, 1, ds, ns, stats);
+                    }
+                    2 => ns.push(format!("f:{p}")),
+                    _ => ns.push(format!("s:{p}")),
+                }
+            }
+            _ => {
+                stats.hit("walk.destination-only");
+                match rng.below(4) {
+                    0 | 1 => {
+                        ds.push(format!("d:{p}"));
+                        sub(rng, 2, ds, ns, stats);
+                    }
+                    2 => ds.push(format!("f:{p}")),
+                    _ => ds.push(format!("l:{p}")),
+                }
+            }
+        }
+    }
 }
 
 pub fn generate(thorough: bool, rng: &mut Rng, ops: &mut Vec<String>, stats: &mut Stats) {
@@ -492,6 +841,76 @@ pub fn generate(thorough: bool, rng: &mut Rng, ops: &mut Vec<String>, stats: &mu
     for (kind, name) in [("file", &b"../evil"[..]), ("file", b".."), ("file", b"../../outer_evil"), ("dir", b".."), ("dir", b"../up"), ("abs", b"evil_abs"), ("file", b"a/b"), ("file", b"plain"), ("file", b"."), ("dir", b"plain_dir")] {
         stats.hit(format!("hostile.{kind}"));
         ops.push(format!("c14 hostile {kind} {}", hex(name)));
+    }
+    // merge-walk: snapshot and destination derived from one random tree; names chosen so that component-wise order
+    // ([a, x] < [a.b]) differs from the order of the joined strings ("a.b" < "a/x")
+    let n_walk = if thorough { 2500 } else { 250 };
+    for _ in 0..n_walk {
+        let (mut ds, mut ns) = (Vec::new(), Vec::new());
+        gen_walk(rng, "", 0, 0, &mut ds, &mut ns, stats);
+        let (del, dry) = (rng.chance(1, 2), rng.chance(1, 5));
+        stats.hit(format!("walk.delete{}dry{}", u8::from(del), u8::from(dry)));
+        let j = |v: &Vec<String>| if v.is_empty() { "-".to_string() } else { v.join(",") };
+        ops.push(format!("c14 walk {} {} {} {}", u8::from(del), u8::from(dry), j(&ds), j(&ns)));
+    }
+    // RestorePlan: to_packs of the plan vs the packs the restore reads
+    let n_plan = if thorough { 800 } else { 80 };
+    for _ in 0..n_plan {
+        let letters = b"abcdefgh";
+        let nb = 1 + rng.below(3) as usize;
+        let mut bks: Vec<Vec<String>> = Vec::new();
+        for k in 0..nb {
+            let nf = 1 + rng.below(3) as usize;
+            let mut files = Vec::new();
+            for i in 0..nf {
+                if k > 0 && rng.chance(1, 3) {
+                    // a file of an earlier backup, unchanged or with one chunk replaced / appended
+                    let prev = rng.pick(&bks[k - 1]).clone();
+                    let mut b = prev.into_bytes();
+                    match rng.below(3) {
+                        0 => {}
+                        1 => {
+                            let at = rng.below(b.len() as u64) as usize;
+                            b[at] = *rng.pick(letters);
+                        }
+                        _ => b.push(*rng.pick(letters)),
+                    }
+                    files.push(String::from_utf8(b).unwrap());
+                } else {
+                    let len = 1 + rng.below(5) as usize;
+                    let base = (k * 2 + i) % 4;
+                    files.push((0..len).map(|_| letters[(base + rng.below(4) as usize) % 8] as char).collect());
+                }
+            }
+            bks.push(files);
+        }
+        let w = rng.below(nb as u64) as usize;
+        let dsts: Vec<String> = bks[w]
+            .iter()
+            .map(|f| {
+                let mut b = f.clone().into_bytes();
+                match rng.below(7) {
+                    0 => return "~".to_string(),
+                    1 => {}
+                    2 | 3 => {
+                        let at = rng.below(b.len() as u64) as usize;
+                        b[at] = b'z';
+                    }
+                    4 => b.push(b'z'),
+                    5 if b.len() > 1 => {
+                        _ = b.pop();
+                    }
+                    _ => b = vec![b'z'; b.len()],
+                }
+                String::from_utf8(b).unwrap()
+            })
+            .collect();
+        stats.hit(format!("plan.backups{nb}"));
+        ops.push(format!("c14 plan {} {w} {}", bks.iter().map(|f| f.join(",")).collect::<Vec<_>>().join(";"), dsts.join(",")));
+    }
+    for (k, d) in [("emptydir", 1), ("emptydir", 0), ("symlink", 1), ("symlink", 0)] {
+        stats.hit(format!("typed.{k}"));
+        ops.push(format!("c14 typed {k} {d}"));
     }
     let n_tree = if thorough { 600 } else { 60 };
     for _ in 0..n_tree {
